@@ -1,4 +1,5 @@
-(* Model of lemoncheesecake/filter.py (with fix F07 applied, see fixes/F07-*.patch), the pruning of testtree.py and
+(* Model of lemoncheesecake/filter.py (as fixed by /repo commit ce19080 = fixes/F07-*.patch: a negated --property value selects
+   nodes lacking the key; an empty pattern is an ordinary non-negated pattern), the pruning of testtree.py and
    cli/utils.py:load_suites_from_project.
 
      Python                                                   Gallina
